@@ -44,6 +44,8 @@ struct Event {
     /// result of is_enabled; for Restore: the index of the token actually restored (usize::MAX = none held)
     res: Option<bool>,
     token: usize,
+    /// the operation panicked (it did not deliver whatever it promises)
+    panicked: bool,
 }
 
 fn op_name(o: OpKind) -> String {
@@ -67,7 +69,7 @@ fn thread_body(b: Arc<Baton>, tid: usize, ops: Vec<OpKind>, log: Arc<Mutex<Vec<E
         let inv = clock.fetch_add(1, Ordering::SeqCst);
         let mut res = None;
         let mut token = usize::MAX;
-        match *op {
+        let outcome = std::panic::catch_unwind(std::panic::AssertUnwindSafe(|| match *op {
             OpKind::Enable => tracing_enabled::enable(),
             OpKind::Disable => tracing_enabled::disable(),
             OpKind::Toggle => tracing_enabled::toggle(),
@@ -87,9 +89,9 @@ fn thread_body(b: Arc<Baton>, tid: usize, ops: Vec<OpKind>, log: Arc<Mutex<Vec<E
                 }
             }
             OpKind::IsEnabled => res = Some(tracing_enabled::is_enabled()),
-        }
+        }));
         let ret = clock.fetch_add(1, Ordering::SeqCst);
-        log.lock().unwrap().push(Event { tid, idx, op: *op, inv, ret, res, token });
+        log.lock().unwrap().push(Event { tid, idx, op: *op, inv, ret, res, token, panicked: outcome.is_err() });
         baton::yield_point(Site::AfterOp);
     }
     b.leave(tid);
@@ -148,13 +150,27 @@ fn run(mut t: Tape) -> RunOut {
         handles.push(std::thread::spawn(move || thread_body(b2, tid, ops2, l2, c2)));
     }
     b.wait_all_parked();
+    let mut steps = 0u32;
+    let mut livelock = false;
     loop {
         let r = b.runnable();
         if r.is_empty() {
             break;
         }
+        steps += 1;
+        if steps > 20_000 {
+            // <= 3 threads x 8 operations x a few atomic accesses: an operation is spinning on
+            // the global flag.  The parked threads are abandoned (they hold no CPU).
+            livelock = true;
+            break;
+        }
         let pick = r[t.choose(r.len() as u32) as usize];
         b.step(pick);
+    }
+    if livelock {
+        let events = log.lock().unwrap().clone();
+        let schedule = b.state.lock().unwrap().schedule.clone();
+        return RunOut { events, initial, final_read: initial, schedule, verdict: Some(("tracing.hang".into(), "kind=spins-at-yield-points".into(), "an operation kept accessing the global flag for more than 20000 scheduling steps without returning".into())), tape: t.consumed(), overlap: false, fine };
     }
     for h in handles {
         let _ = h.join();
@@ -336,6 +352,9 @@ fn linearizable(ops: &[GOp], initial: bool) -> bool {
 }
 
 fn judge(events: &[Event], nthreads: usize, initial: bool, final_read: bool) -> Option<(String, String, String)> {
+    if let Some(e) = events.iter().find(|e| e.panicked) {
+        return Some(("tracing.trap".into(), format!("op={}", op_name(e.op).split('#').next().unwrap_or("")), format!("T{}#{} {} panicked", e.tid, e.idx, op_name(e.op))));
+    }
     let last = events.iter().map(|e| e.ret).max().unwrap_or(0);
     let mut first_reason: Option<(String, String)> = None;
     for (vi, v) in variants().iter().enumerate() {
@@ -391,7 +410,37 @@ fn mix(seed: u64) -> u64 {
     seed ^ 0xC20C_20C2_0C20_C20C
 }
 
+static RUN_STARTED_MS: AtomicU64 = AtomicU64::new(0);
+static RUN_INDEX: AtomicU64 = AtomicU64::new(0);
+
+fn now_ms() -> u64 {
+    static T0: std::sync::OnceLock<std::time::Instant> = std::sync::OnceLock::new();
+    T0.get_or_init(std::time::Instant::now).elapsed().as_millis() as u64 + 1
+}
+
+/// a run whose threads never hand the baton back (an operation that spins or blocks) would
+/// hang the check: report it as a violation with the choices made so far and end the worker
+fn start_watchdog() {
+    let limit: u64 = std::env::var("VERIF_RUN_TIMEOUT_S").ok().and_then(|s| s.parse::<u64>().ok()).unwrap_or(60) * 1000;
+    let _ = now_ms();
+    std::thread::spawn(move || loop {
+        std::thread::sleep(std::time::Duration::from_millis(250));
+        let st = RUN_STARTED_MS.load(Ordering::Relaxed);
+        if st != 0 && now_ms().saturating_sub(st) > limit {
+            let run = RUN_INDEX.load(Ordering::Relaxed);
+            let mut out = std::io::stdout().lock();
+            let _ = writeln!(out, "V {}", json!({"run": run, "class": "tracing.hang", "features": "", "detail": format!("the simulated threads did not finish within {} s: an operation spins or blocks", limit / 1000), "tape": tape::mirror_snapshot()}));
+            let _ = writeln!(out, "E {}", json!({"runs": 0, "overlaps": 0, "fine_runs": 0, "yields": 0, "ops": 0, "samples": [], "distinct": [], "distinct_nt": [], "sites": {}, "hung": true}));
+            let _ = out.flush();
+            std::process::exit(0);
+        }
+    });
+}
+
 fn worker(seed: u64, start: u64, stride: u64, end: u64) -> i32 {
+    start_watchdog();
+    // panics inside operations are caught and judged; keep the default hook quiet
+    std::panic::set_hook(Box::new(|_| {}));
     let mut i = start;
     let mut runs = 0u64;
     let mut overlaps = 0u64;
@@ -404,7 +453,10 @@ fn worker(seed: u64, start: u64, stride: u64, end: u64) -> i32 {
     let mut site_counts: BTreeMap<String, u64> = BTreeMap::new();
     let out = std::io::stdout();
     while i < end {
+        RUN_INDEX.store(i, Ordering::Relaxed);
+        RUN_STARTED_MS.store(now_ms(), Ordering::Relaxed);
         let o = run(Tape::record(mix(seed), i));
+        RUN_STARTED_MS.store(0, Ordering::Relaxed);
         runs += 1;
         ops += o.events.len() as u64;
         yields += o.schedule.len() as u64;
@@ -604,11 +656,17 @@ fn check(tier: &str, seed: u64) -> i32 {
         }
         let f = group.iter().min_by_key(|f| f["tape"].as_array().map(|a| a.len()).unwrap_or(0)).unwrap();
         let tape0: Vec<u32> = f["tape"].as_array().map(|a| a.iter().map(|x| x.as_u64().unwrap_or(0) as u32).collect()).unwrap_or_default();
-        let (tape_min, used) = minimise(&tape0, sig);
-        let o = run(Tape::replay(tape_min.clone()));
-        let detail = match &o.verdict {
-            Some((_, _, d)) => format!("{d}; history: {}", history_text(&o)),
-            None => f["detail"].as_str().unwrap_or("").to_string(),
+        let hang = sig.starts_with("tracing.hang");
+        // a hanging history is not re-executed in this process (its threads never come back)
+        let (tape_min, used) = if hang { (tape0.clone(), 0) } else { minimise(&tape0, sig) };
+        let detail = if hang {
+            f["detail"].as_str().unwrap_or("").to_string()
+        } else {
+            let o = run(Tape::replay(tape_min.clone()));
+            match &o.verdict {
+                Some((_, _, d)) => format!("{d}; history: {}", history_text(&o)),
+                None => f["detail"].as_str().unwrap_or("").to_string(),
+            }
         };
         let dir = verif_dir().join("replays");
         let _ = std::fs::create_dir_all(&dir);
@@ -672,7 +730,20 @@ fn replay(path: &str) -> i32 {
         return 2;
     };
     let tape_vals: Vec<u32> = j["tape"].as_array().map(|a| a.iter().map(|x| x.as_u64().unwrap_or(0) as u32).collect()).unwrap_or_default();
-    let o = run(Tape::replay(tape_vals));
+    // the run happens on a helper thread so that a hanging history can be reported
+    let limit: u64 = std::env::var("VERIF_RUN_TIMEOUT_S").ok().and_then(|s| s.parse::<u64>().ok()).unwrap_or(60);
+    let (tx, rx) = std::sync::mpsc::channel();
+    std::thread::spawn(move || {
+        let _ = tx.send(run(Tape::replay(tape_vals)));
+    });
+    let o = match rx.recv_timeout(std::time::Duration::from_secs(limit)) {
+        Ok(o) => o,
+        Err(_) => {
+            println!("replayed: tracing.hang :: the simulated threads did not finish within {limit} s");
+            println!("VIOLATION property=C20 replay={path}");
+            std::process::exit(1);
+        }
+    };
     match &o.verdict {
         Some((c, f, d)) => {
             println!("replayed: {} :: {d}; history: {}", signature(c, f), history_text(&o));
@@ -698,13 +769,53 @@ fn detlog(seed: u64, start: u64, stride: u64, end: u64) -> i32 {
     0
 }
 
+/// self-test of the oracle on hand-written histories (run by `./check --setup`)
+fn selftest() -> i32 {
+    let ev = |tid: usize, idx: usize, op: OpKind, inv: u64, ret: u64, res: Option<bool>| Event { tid, idx, op, inv, ret, res, token: usize::MAX, panicked: false };
+    // 1. sequential: disable then a read on another thread sees false
+    let h1 = vec![ev(0, 0, OpKind::Disable, 1, 2, None), ev(1, 0, OpKind::IsEnabled, 3, 4, Some(false))];
+    // 2. stale read: the read starts after disable returned but still sees true
+    let h2 = vec![ev(0, 0, OpKind::Disable, 1, 2, None), ev(1, 0, OpKind::IsEnabled, 3, 4, Some(true))];
+    // 3. overlapping toggle and read: either value is fine
+    let h3a = vec![ev(0, 0, OpKind::Toggle, 1, 4, None), ev(1, 0, OpKind::IsEnabled, 2, 3, Some(true))];
+    let h3b = vec![ev(0, 0, OpKind::Toggle, 1, 4, None), ev(1, 0, OpKind::IsEnabled, 2, 3, Some(false))];
+    // 4. lost update: two toggles, final value unchanged... from true two flips give true: fine; one lost gives false
+    let h4 = vec![ev(0, 0, OpKind::Toggle, 1, 4, None), ev(1, 0, OpKind::Toggle, 2, 3, None)];
+    // 5. own override must win over the global
+    let h5 = vec![ev(0, 0, OpKind::LocalDisable, 1, 2, None), ev(1, 0, OpKind::Enable, 3, 4, None), ev(0, 1, OpKind::IsEnabled, 5, 6, Some(true))];
+    // 6. another thread's local_disable must not leak
+    let h6 = vec![ev(0, 0, OpKind::LocalDisable, 1, 2, None), ev(1, 0, OpKind::IsEnabled, 3, 4, Some(false))];
+    let cases: Vec<(&str, Vec<Event>, usize, bool, bool, bool)> = vec![
+        ("sequential write/read", h1, 2, true, false, true),
+        ("stale read", h2, 2, true, false, false),
+        ("overlap reads old", h3a, 2, true, false, true),
+        ("overlap reads new", h3b, 2, true, false, true),
+        ("two toggles keep the value", h4.clone(), 2, true, true, true),
+        ("lost toggle", h4, 2, true, false, false),
+        ("override ignored", h5, 2, true, true, false),
+        ("override leaked to another thread", h6, 2, true, true, false),
+    ];
+    for (name, h, n, initial, fin, ok) in cases {
+        let v = judge(&h, n, initial, fin);
+        if v.is_none() != ok {
+            eprintln!("selftest FAILED: history '{name}' judged {:?}, expected {}", v, if ok { "accepted" } else { "rejected" });
+            return 2;
+        }
+    }
+    println!("selftest: linearizability oracle ok on 8 hand-written histories");
+    0
+}
+
 fn main() {
+    // panics inside simulated operations are caught and judged; keep the default hook quiet
+    std::panic::set_hook(Box::new(|_| {}));
     let a: Vec<String> = std::env::args().collect();
     let seed = std::env::var("VERIF_SEED").ok().and_then(|s| s.trim().parse::<u64>().ok()).unwrap_or(DEFAULT_SEED);
     let code = match a.get(1).map(|s| s.as_str()) {
         Some("check") => check(a.get(2).map(|s| s.as_str()).unwrap_or("quick"), seed),
         Some("worker") if a.len() >= 6 => worker(a[2].parse().unwrap_or(0), a[3].parse().unwrap_or(0), a[4].parse().unwrap_or(1), a[5].parse().unwrap_or(0)),
         Some("replay") if a.len() >= 3 => replay(&a[2]),
+        Some("selftest") => selftest(),
         Some("detlog") if a.len() >= 6 => detlog(a[2].parse().unwrap_or(0), a[3].parse().unwrap_or(0), a[4].parse().unwrap_or(1), a[5].parse().unwrap_or(0)),
         _ => {
             eprintln!("usage: threads-sim check <quick|thorough> | replay <file>");
